@@ -661,3 +661,23 @@ Proof.
   - apply ch_loop_small; [exact Hbuf | constructor].
   - apply cl_loop_small. constructor.
 Qed.
+
+(* ---- sequences of requests; a request object without errors_map ---- *)
+Lemma C13_seq_lemma :
+  forall (pre post : list (list Z)) (x : list Z),
+    nth (length pre) (run_seq13 (pre ++ x :: post)) [] = corr_C13_one x.
+Proof. intros. apply nth_map_app. Qed.
+
+Lemma C13_unmapped_lemma :
+  forall s buf maxb cl chunked,
+    match request_body_with [] s buf maxb cl chunked with
+    | RStatus _ _ => False
+    | _ => True
+    end
+    /\ (forall s', body_read s buf maxb cl chunked = BTooLarge s' ->
+                   request_body_with [] s buf maxb cl chunked = REscape s').
+Proof.
+  intros s buf maxb cl chunked. unfold request_body_with, mapped, raise_status. cbn [emap_get].
+  split; [destruct (body_read s buf maxb cl chunked); exact I|].
+  intros s' ->. reflexivity.
+Qed.
